@@ -123,3 +123,30 @@ Definition quad_cost (coef : Q * Q * Q) (d : Q) : Q := let '(c2, c1, c0) := coef
 Definition one_vertical_well (simple : bool) (coef : Q * Q * Q) (depth_m per_m adj : Q) : Q :=
   let use_simple := simple || Qltb depth_m 500 in
   adj * (if use_simple then per_m * depth_m / 1000000 else quad_cost coef depth_m).
+
+(* ---- district-heating network cost (Economics.Calculate, plant type district heating): four ways to obtain it ---- *)
+Record dh_in := {
+  d_total_provided : bool; d_total : Q;            (* Total District Heating Network Cost *)
+  d_piping_provided : bool; d_piping_len : Q;      (* District Heating Network Piping Length [km] *)
+  d_road_provided : bool; d_road_len : Q;          (* District Heating Road Length [km] *)
+  d_area : Q;                                      (* District Heating Land Area [km2] *)
+  d_pop_provided : bool; d_pop : Q;                (* District Heating Population *)
+  d_units_provided : bool; d_units : Q;            (* number of housing units (2.6 people each) *)
+  d_rate : Q }.                                    (* piping cost rate [$/m] *)
+
+Definition dh_density (d : dh_in) : Q :=
+  if d_pop_provided d then d_pop d / d_area d
+  else if d_units_provided d then d_units d * (26 # 10) / d_area d
+  else d_pop d / d_area d.
+(* 7.5 km of pipe per km2 above 1000 people/km2, scaled with density below, never less than 1 km per km2 *)
+Definition dh_length_from_density (d : dh_in) : Q :=
+  let rho := dh_density d in
+  if Qltb 1000 rho then (75 # 10) * d_area d else Qmax (rho / 1000 * (75 # 10) * d_area d) (d_area d).
+Definition dh_network_cost (d : dh_in) : Q :=
+  if d_total_provided d then d_total d
+  else if d_piping_provided d then d_piping_len d * d_rate d / 1000
+  else if d_road_provided d then d_road_len d * (75 # 100) * d_rate d / 1000
+  else d_rate d * dh_length_from_density d / 1000.
+(* district O&M when not supplied: 1 % of the network cost + 2 % of the heat demand priced at the electricity rate *)
+Definition dh_oam (provided : bool) (supplied network_cost demand_sum elec_rate : Q) : Q :=
+  if provided then supplied else (1 # 100) * network_cost + (2 # 100) * demand_sum * elec_rate / 1000.
